@@ -100,7 +100,7 @@ def apply(tree, funcs, family):
                     if re.search(r'(?<![\w.>])%s\s*[*&]?\s+\*?\s*[A-Za-z_]\w*\s*(=|;|,|\))' % re.escape(n), text) or \
                             re.search(r'\b%s\s*[*&]' % re.escape(n), text) and re.search(r'\b%s\s*\*\s*\w+\s*=' % re.escape(n), text):
                         continue  # the name is also used as a type name in this function
-                    text, k = re.subn(r'(?<![\w.>":])(?<!->)%s(?![\w"])' % re.escape(n), n + '_rn', text)
+                    text, k = re.subn(r'(?<![\w.":])(?<!->)%s(?![\w"])' % re.escape(n), n + '_rn', text)
                     changed += k
             elif family == 'mirror':
                 def sw(m):
